@@ -100,7 +100,9 @@ def required_counters(tier):
             'rt-class:poly': 50, 'rt-class:line': 50, 'rt-class:text': 50, 'rt-class:symbol': 50,
             'read-shape:box': 20, 'read-shape:centerbox': 20, 'read-shape:rotbox': 20, 'read-shape:ellipse': 20,
             'read-shape:symbol': 20, 'read-shape:text': 20, 'read-shape:poly': 20, 'read-shape:line': 20,
-            'read-global-override': 50, 'read-inline-coord-over-global': 50}
+            'read-global-override': 50, 'read-inline-coord-over-global': 50,
+            **{'rt-coordsys:' + f: 40 for f in SKY_FRAMES + ['image']},
+            **{'rt-radunit:' + r: 40 for r in ('deg', 'arcmin', 'arcsec', 'rad', 'pix')}}
 
 
 # ===========================================================================
@@ -201,63 +203,76 @@ def printed(reg, coordsys, radunit, transform):
 
 
 def compare_geometry(exp, got, fmt, exact=False):
-    """exp/got from printed(); -> list of (field, expected, got, tol) mismatches and the number of values judged."""
+    """exp/got from printed(); -> (mismatches [(field, expected, got, tol)], number judged, number skipped).
+
+    exact=True is the fixed-point comparison: the value being re-serialised is itself a printed decimal, so it
+    is reproduced exactly unless the arithmetic noise of the second pass (same-frame transform_to: up to ~1e-13
+    deg / cos(lat), measured) can reach the rounding boundary; those values are skipped, not judged.
+    """
     bad = []
     n = 0
+    skipped = 0
 
     def tol(v, amp=1.0):
         h = half_unit(v, fmt)
         base = 4 * EPS * abs(v)
         if not exact:
             return h + base
-        # fixed point: the value being re-serialised is itself a printed decimal; it can only move when the
-        # arithmetic noise of the second pass reaches the rounding boundary
         stable = h >= 1e4 * EPS * max(abs(v), 1.0) * amp
-        return base + (0.0 if stable else 2 * h)
+        return base if stable else None
+
+    def judge(field, e, g, t, diff):
+        nonlocal n, skipped
+        if t is None:
+            skipped += 1
+            return
+        n += 1
+        if not diff <= t:
+            bad.append((field, e, g, t))
 
     if len(exp['pos']) != len(got['pos']):
-        return [('npos', len(exp['pos']), len(got['pos']), 0)], 1
+        return [('npos', len(exp['pos']), len(got['pos']), 0)], 1, 0
     for i, ((ea, eb), (ga, gb)) in enumerate(zip(exp['pos'], got['pos'])):
         if ea.shape != ga.shape:
             bad.append((f'pos{i}.count', ea.shape, ga.shape, 0))
             n += 1
             continue
         for j in range(len(ea)):
-            n += 2
             if exp['sky']:
-                amp = 1.0 / max(math.cos(math.radians(min(abs(eb[j]), 89.9999))), 1e-6)
-                t = tol(ea[j], amp)
-                if not angdiff(ea[j], ga[j], 360.0) <= t + 4 * EPS * 360:
-                    bad.append((f'pos{i}[{j}].lon', ea[j], ga[j], t))
+                if exact and abs(eb[j]) > 89.9999:
+                    t = None                # longitude is degenerate at the pole
+                else:
+                    amp = 1.0 / math.cos(math.radians(min(abs(eb[j]), 89.9999)))
+                    t = tol(ea[j], amp)
+                    if t is not None:
+                        t += 4 * EPS * 360
+                judge(f'pos{i}[{j}].lon', ea[j], ga[j], t, angdiff(ea[j], ga[j], 360.0))
             else:
-                t = tol(ea[j])
-                if not abs(ea[j] - ga[j]) <= t:
-                    bad.append((f'pos{i}[{j}].x', ea[j], ga[j], t))
-            t = tol(eb[j])
-            if not abs(eb[j] - gb[j]) <= t:
-                bad.append((f'pos{i}[{j}].lat' if exp['sky'] else f'pos{i}[{j}].y', eb[j], gb[j], t))
+                judge(f'pos{i}[{j}].x', ea[j], ga[j], tol(ea[j]), abs(ea[j] - ga[j]))
+            judge(f'pos{i}[{j}].lat' if exp['sky'] else f'pos{i}[{j}].y', eb[j], gb[j], tol(eb[j]), abs(eb[j] - gb[j]))
     if len(exp['lens']) != len(got['lens']):
         bad.append(('nlens', len(exp['lens']), len(got['lens']), 0))
     else:
         for i, (e, g) in enumerate(zip(exp['lens'], got['lens'])):
-            n += 1
-            t = tol(e)
-            if not abs(e - g) <= t:
-                bad.append((f'len{i}', e, g, t))
+            judge(f'len{i}', e, g, tol(e), abs(e - g))
     if (exp['wha'] is None) != (got['wha'] is None):
         bad.append(('wha', exp['wha'], got['wha'], 0))
     elif exp['wha'] is not None:
-        n += 3
         (w, h, a), (gw, gh, ga) = exp['wha'], got['wha']
-        tw, th, ta = tol(w), tol(h), tol(a) + 8 * EPS * (abs(a) + abs(ga) + 360)
-        direct = abs(w - gw) <= tw and abs(h - gh) <= th and angdiff(a, ga, 180.0) <= ta
-        swapped = abs(w - gh) <= tw and abs(h - gw) <= th and angdiff(a + 90.0, ga, 180.0) <= ta
-        if not (direct or swapped):
-            if abs(w - gw) > tw or abs(h - gh) > th:
-                bad.append(('axes(w,h)', (w, h), (gw, gh), (tw, th)))
-            if angdiff(a, ga, 180.0) > ta:
-                bad.append(('angle', a, ga, ta))
-    return bad, n
+        tw, th, ta = tol(w), tol(h), tol(a)
+        if tw is None or th is None or ta is None:
+            skipped += 3
+        else:
+            n += 3
+            ta += 8 * EPS * (abs(a) + abs(ga) + 360)
+            direct = abs(w - gw) <= tw and abs(h - gh) <= th and angdiff(a, ga, 180.0) <= ta
+            swapped = abs(w - gh) <= tw and abs(h - gw) <= th and angdiff(a + 90.0, ga, 180.0) <= ta
+            if not (direct or swapped):
+                if abs(w - gw) > tw or abs(h - gh) > th:
+                    bad.append(('axes(w,h)', (w, h), (gw, gh), (tw, th)))
+                if angdiff(a, ga, 180.0) > ta:
+                    bad.append(('angle', a, ga, ta))
+    return bad, n, skipped
 
 
 # ===========================================================================
@@ -350,10 +365,6 @@ def applicable_repairs(text, regs, opts):
 
 # ===========================================================================
 # the round-trip engine (side a; also used on parsed regions from side b)
-class RTFail(Exception):
-    pass
-
-
 def lib_serialize(regs, opts, tmpdir=None):
     from regions import Regions
     kw = {'coordsys': opts['coordsys'], 'fmt': opts['fmt']}
@@ -389,7 +400,7 @@ def evaluate_text(text, ref, opts, exact, tmpdir):
         parsed = lib_parse(text, opts, tmpdir)
     except Exception as exc:            # noqa: BLE001 - whatever the parser raises is the observation
         return {'parsed': None, 'exc': exc, 'clean': False}
-    res = {'parsed': parsed, 'exc': None, 'count_ok': len(parsed) == len(ref), 'geom': [], 'njudged': 0, 'cls': []}
+    res = {'parsed': parsed, 'exc': None, 'count_ok': len(parsed) == len(ref), 'geom': [], 'njudged': 0, 'nskipped': 0, 'cls': []}
     if not res['count_ok']:
         res['clean'] = False
         return res
@@ -409,8 +420,9 @@ def evaluate_text(text, ref, opts, exact, tmpdir):
                 continue
         exp = printed(r0, opts['coordsys'], opts['radunit'], transform=not exact)
         got = printed(r1, opts['coordsys'], opts['radunit'], transform=False)
-        bad, n = compare_geometry(exp, got, opts['fmt'], exact=exact)
+        bad, n, nskip = compare_geometry(exp, got, opts['fmt'], exact=exact)
         res['njudged'] += n
+        res['nskipped'] += nskip
         if bad:
             res['geom'].append((i, bad))
     res['clean'] = not res['geom'] and not res['cls']
@@ -499,6 +511,8 @@ def roundtrip(obs, make_regions, opts, what, tmpdir=None, stage='rt', pre_repair
                       f'(coordsys={opts["coordsys"]}, fmt={opts["fmt"]}, radunit={opts["radunit"]}; {len(bad)} fields off)',
                       text=text[:1500], mismatches=[list(map(repr, b)) for b in bad[:6]])
     obs.ok(max(res['njudged'] - sum(len(b) for b in geom_bad.values()), 0), 'rt-geometry' if not exact else 'fixed-point')
+    if res['nskipped']:
+        obs.skip(res['nskipped'], 'fixed-point-noise-reaches-rounding-boundary')
     if not exact:
         for nm in names:
             obs.count('rt-class:' + nm)
@@ -834,6 +848,8 @@ def g_lat(rng):
         return s + 'deg', float(s)
     if k == 'rad':
         s = dec_str(rng, -1.57, 1.57, 9, sign=True)
+        if abs(float(s)) > 1.57:
+            s = '1.5'
         return s + 'rad', math.degrees(float(s))
     d, m, sec = rng.randint(0, 89), rng.randint(0, 59), sec_str(rng)
     sg = rng.choice(['-', '-', '', '+'])
@@ -1062,22 +1078,36 @@ def gen_read_case(rng, err=False):
         lines.append(line)
         model.update(include=include, type=typ, meta=eff)
         model['rt'] = None
-        if rng.random() < 0.5 and model['shape'] != 'box':
-            fmt = f'.{rng.choice([2, 3, 4, 6, 8])}f'
-            if model['sky']:
-                model['rt'] = {'coordsys': rng.choice([frame, frame, rng.choice(SKY_FRAMES)]), 'fmt': fmt,
-                               'radunit': rng.choice(['deg', 'arcmin', 'arcsec', 'rad']), 'api': 'region'}
-                if model['rt']['radunit'] == 'rad':
-                    model['rt']['fmt'] = '.9f'
-            else:
-                model['rt'] = {'coordsys': 'image', 'fmt': fmt, 'radunit': 'pix', 'api': 'region'}
+        if rng.random() < 0.5:
+            # options for pushing the parsed region through the round trip: enough decimals that every size (and
+            # the annulus gap) keeps >= 3 units of the last printed digit
+            radunit = rng.choice(['deg', 'arcmin', 'arcsec', 'rad']) if model['sky'] else 'pix'
+            per = UNIT_DEG.get(radunit, 1.0)
+            sizes = []
+            for v, un in list(model.get('lens', [])) + [model[k] for k in ('a', 'b') if k in model]:
+                sizes.append(v * UNIT_DEG.get(un, 1.0) / per)
+            if model['shape'] == 'annulus':
+                (v1, u1), (v2, u2) = model['lens']
+                sizes.append((v2 * UNIT_DEG.get(u2, 1.0) - v1 * UNIT_DEG.get(u1, 1.0)) / per)
+            if model['shape'] == 'box':
+                (x1, y1), (x2, y2) = model['corners']
+                sizes += [abs(x1 - x2) / per, abs(y1 - y2) / per]
+                if model['sky']:
+                    sizes.append(abs(x1 - x2) * math.cos(math.radians(max(abs(y1), abs(y2)))) / per)
+            need = 1
+            if sizes:
+                need = max(1, int(math.ceil(-math.log10(min(sizes) / 3.0))))
+            if need <= 12:
+                nd = min(12, max(need, rng.choice([1, 2, 3, 4, 6, 8])))
+                model['rt'] = {'coordsys': rng.choice([frame, frame, rng.choice(SKY_FRAMES)]) if model['sky'] else 'image',
+                               'fmt': f'.{nd}f', 'radunit': radunit, 'api': 'region'}
         expect.append(model)
     return {'lane': 'read-err' if err else 'read', 'text': '\n'.join(lines) + rng.choice(['', '\n']), 'expect': expect,
             'flags': flags}
 
 
 def generate(rng, tier, shard, nshards):
-    n = 700 if tier == "quick" else 12000
+    n = 350 if tier == 'quick' else 12000
     for _ in range(n):
         r = rng.random()
         if r < 0.42:
